@@ -38,6 +38,10 @@ def load(path: str | os.PathLike, format: str | None = None) -> _core.Model:
     # Set the base directory for external data to the directory of the ONNX file
     # so that relative paths are resolved correctly.
     _external_data.set_base_dir(model.graph, base_dir)
+    # Tensors in the bodies of model-local functions (constant attributes) refer to
+    # external data relative to the model file as well
+    for function in model.functions.values():
+        _external_data.set_base_dir(function.graph, base_dir)
     return model
 
 
